@@ -79,7 +79,11 @@ def guards(ctx, prog):
                 if "lhs" in st and st["rv"]["k"] == "agg" and st["rv"].get("ak") == "tuple" and any(
                         getattr(s, "fields", None) and s.fields[-1] == "head" for o in st["rv"]["ops"] for s in flatten_src(provenance(rd, o))):
                     assigns.add(bi)
-        if assigns and not (reachable(rd, (tr,), avoid_blocks=assigns) & set(subs[:1])):
+        # ... and the value subtracted from is that (rewritten) cursor: one of its sources is self.head
+        sub_t = rd.blocks[subs[0]]["t"]
+        sub_src = flatten_src(provenance(rd, sub_t["ops"][0])) if sub_t.get("ops") else []
+        from_head = any(getattr(s, "fields", None) and s.fields[-1] == "head" for s in sub_src)
+        if assigns and from_head and not (reachable(rd, (tr,), avoid_blocks=assigns) & set(subs[:1])):
             ctx.ok(rule, rd.id, "`cursor.0 < head` jumps the cursor to head before `cursor.0 - head`")
         else:
             ctx.violation(rule, rd.id, "stale cursor not rewound to head", "with cursor.0 < head the subtraction cursor.0 - head is reached without moving the cursor to head", site=rd.fn_loc())
